@@ -29,7 +29,7 @@ ASSUMPTIONS = [
 ]
 MANIFEST = {
     'level': 'fault_enumeration',
-    'technique': 'runtime monitoring in the virtual-clock lab: crash-point enumeration by a scripted remote speaker, offline replay of the received UPDATEs into a reference peer table compared with a sequential model of the operation history',
+    'technique': 'runtime monitoring in the virtual-clock lab: crash-point enumeration by a scripted remote speaker, offline replay of the received UPDATEs into a reference peer table compared with a sequential model of the operation history; connection drops, API operations while down and the resynchronisation also observed on the real exabgp process with a real helper process',
     'text': 'For each history the connection is dropped at enumerated points (every k-th message of the initial batch in thorough, a '
     'spread of k in quick; establishment phases; steady state) with four loss kinds; after re-establishment the peer table rebuilt '
     'from the wire must equal configured + API routes not withdrawn, followed by an End-of-RIB per family.',
@@ -184,7 +184,7 @@ def build_case(r: random.Random, idx: int, tier: str, forced=None):
 
 def plan(tier, seed):
     n = 16
-    return [{'shard': i, 'nshards': n, 'cases': 7 if tier == 'quick' else 60} for i in range(n)]
+    return [{'shard': i, 'nshards': n, 'cases': 7 if tier == 'quick' else 60} for i in range(n)] + [{'shard': 900 + i, 'daemon': True, 'part': i, 'cases': 3 if tier == 'quick' else 12} for i in range(4 if tier == 'quick' else 8)]
 
 
 def judge(res: Result, case, rec):
@@ -296,7 +296,135 @@ def judge(res: Result, case, rec):
     res.extra['routes_resynchronised'] += len(want)
 
 
+def run_daemon(desc):
+    """the REAL daemon: a scripted peer drops the connection after k messages of a batch (or during the OPEN exchange), a real
+    helper process withdraws and announces routes while the session is down, the daemon comes back by itself.  The table the
+    peer rebuilds from the NEW session alone is the configuration plus the API routes not since withdrawn, and the End-of-RIB
+    comes after all of them"""
+    import json as _json
+    import time
+
+    from vlib import daemon, exa
+    from vlib.props.c17 import canon
+
+    res = Result()
+    r = random.Random(desc['seed'] * 9176327 + desc['part'])
+    for ci in range(desc['cases']):
+        n = r.choice([6, 40, 300])
+        conf_routes = [('10.%d.%d.0/24' % (i // 250, i % 250), '192.0.2.1', i % 7) for i in range(n)]
+        a = [('172.16.%d.0/24' % i, '192.0.2.2', 10 + i) for i in range(1, 6)]
+        crash = r.choice(['batch', 'batch', 'after-our-open', 'after-peer-open', 'steady'])
+        k = r.randrange(0, 12)
+        text = 'process player {\n    run @PY@ @DIR@/player.py @DIR@/script @DIR@/replies;\n    encoder json;\n}\n' + exa.neighbor_text(
+            hold=90,
+            families=[(1, 1)],
+            body='    static {\n' + ''.join(f'        route {p} next-hop {nh} med {m};\n' for p, nh, m in conf_routes) + '    }\n',
+            extra='    adj-rib-out true;\n    group-updates false;\n    api { processes [ player ]; }',
+        )
+        script = '#sleep 1.0\n' + ''.join(f'peer * announce route {p} next-hop {nh} med {m}\n' for p, nh, m in a[:3]) + '#wait g1\n'
+        script += f'peer * withdraw route {a[0][0]} next-hop {a[0][1]}\n' + ''.join(f'peer * announce route {p} next-hop {nh} med {m}\n' for p, nh, m in a[3:]) + f'peer * withdraw route {conf_routes[1][0]} next-hop 192.0.2.1\n#wait g2\n'
+        want = {canon(p): (nh, m) for p, nh, m in conf_routes + a[1:]}
+        want.pop(canon(conf_routes[1][0]))
+        cls = f'daemon:{crash}'
+        wit = {'crash': crash, 'k': k, 'routes': n, 'level': 'daemon'}
+        d = daemon.Daemon(text, files={'script': script})
+        peer = None
+        try:
+            d.start()
+            peer = d.accept()
+            if crash == 'after-our-open':
+                peer.read_message(20)
+            elif crash == 'after-peer-open':
+                t, body = peer.read_message(20)
+                from vlib.props.c10 import open_body
+
+                peer.conn.sendall(open_body(caps=[rw.cap_mp(1, 1), rw.cap_asn4(65001)]))
+            else:
+                peer.establish(65001, hold=90)
+                if crash == 'steady':
+                    d.wait_lines('replies', lambda ls: any(x.startswith('["wait"') for x in ls), timeout=60)
+                    peer.drain(quiet=0.8, limit=30)
+                else:
+                    for _ in range(k):
+                        peer.read_message(5)
+            peer.close()
+            peer = None
+            d.wait_lines('replies', lambda ls: any(x.startswith('["wait", "g1"') for x in ls), timeout=60)
+            d.release('g1')
+            d.wait_lines('replies', lambda ls: any(x.startswith('["wait", "g2"') for x in ls), timeout=60)
+            replies = [_json.loads(x) for x in d.lines('replies')]
+            if any(x[0] == 'timeout' for x in replies) or any(x[0] == 'got' and 'error' in x[1] for x in replies):
+                res.inconclusive.append('daemon: an API command of the scenario was refused or not answered: ' + str([x for x in replies if x[0] != 'sent'][-4:])[:300])
+                continue
+            # connections queued in the backlog before the API operations were made are dropped: the next one is judged
+            time.sleep(0.5)
+            d.listener.settimeout(0.2)
+            while True:
+                try:
+                    c_, _ = d.listener.accept()
+                    c_.close()
+                except (OSError, TimeoutError):
+                    break
+            peer = d.accept(timeout=60)
+            peer.establish(65001, hold=90)
+            rx = peer.drain(quiet=1.5, limit=60)
+        except daemon.Inconclusive as e:
+            res.inconclusive.append('daemon: ' + str(e)[:300])
+            continue
+        finally:
+            try:
+                if peer is not None:
+                    peer.close()
+            except Exception:  # noqa
+                pass
+            d.stop()
+        table = rw.PeerTable()
+        eor_at = None
+        last_route_at = None
+        try:
+            for i, (t, b) in enumerate(rx):
+                if t == 3:
+                    res.violation('C11/daemon:notification-on-the-new-session', f'NOTIFICATION {b[0]}/{b[1]} on the session which follows the loss', wit, cls)
+                    break
+                if t != 2:
+                    continue
+                dec = rw.dec_update(bytes(b), rw.sess(asn4=True, addpath=()))
+                if dec['eor']:
+                    eor_at = i if eor_at is None else eor_at
+                    continue
+                table.apply(dec)
+                last_route_at = i
+        except rw.RefError as e:
+            res.violation('C11/daemon:undecodable-update', str(e), wit, cls)
+            continue
+        got = {}
+        for key, v in table.routes.items():
+            med = dict(v['attrs']).get(rw.MED)
+            got[key[5]] = (v['nexthop'][0] if v['nexthop'] else None, int(med) if med is not None else None)
+        wit['peer_table_size'] = len(got)
+        missing = sorted(set(want) - set(got))
+        extra = sorted(set(got) - set(want))
+        wrong = sorted(p for p in set(got) & set(want) if got[p] != want[p])
+        if missing:
+            src = 'api' if any(p.startswith('172.') for p in missing) else 'configured'
+            res.violation(f'C11/daemon:route-not-readvertised:{src}:{crash}', f'after the loss ({crash}, k={k}) the new session lacks {missing[:4]}', dict(wit, missing=missing[:20]), cls)
+        elif extra:
+            res.violation(f'C11/daemon:withdrawn-while-down-readvertised:{crash}', f'routes withdrawn while the session was down were advertised on the new session: {extra[:4]}', dict(wit, extra=extra[:20]), cls)
+        elif wrong:
+            res.violation(f'C11/daemon:stale-values:{crash}', f'{wrong[0]} advertised as {got[wrong[0]]}, intended {want[wrong[0]]}', wit, cls)
+        elif eor_at is None:
+            res.violation(f'C11/daemon:no-eor:{crash}', 'the complete table was advertised again but no End-of-RIB followed', wit, cls)
+        elif last_route_at is not None and last_route_at > eor_at:
+            res.violation(f'C11/daemon:eor-before-batch-end:{crash}', f'End-of-RIB was message {eor_at}, routes of the table went on until message {last_route_at}', wit, cls)
+        else:
+            res.ok(cls, ('daemon', crash, n))
+            res.ok('daemon:resync')
+    return res
+
+
 def run_shard(desc):
+    if desc.get('daemon'):
+        return run_daemon(desc)
     res = Result()
     r = random.Random(desc['seed'] * 7727 + desc['shard'])
     forced_list = [(c, l) for c in ('batch', 'after-our-open', 'after-peer-open', 'after-keepalive', 'steady') for l in ('eof', 'rst', 'notification', 'hold')]
@@ -322,6 +450,6 @@ def run_shard(desc):
 
 REQUIRED_CLASSES = {
     'quick': ['crash:batch', 'crash:steady', 'crash:after-our-open', 'crash:after-peer-open', 'crash:after-keepalive', 'loss:eof', 'loss:rst', 'loss:notification', 'loss:hold', 'down:announce', 'down:withdraw',
-              'prelude:reload-neighbor-change', 'resync:refresh-at-start', 'resync:api-during-batch', 'resync:refresh+api', 'resync:flush-while-down', 'adj-rib-out:false', 'adj-rib-out:true'],
+              'prelude:reload-neighbor-change', 'resync:refresh-at-start', 'resync:api-during-batch', 'resync:refresh+api', 'resync:flush-while-down', 'adj-rib-out:false', 'adj-rib-out:true', 'daemon:resync'],
 }
 REQUIRED_CLASSES['thorough'] = REQUIRED_CLASSES['quick']
